@@ -927,9 +927,9 @@ def args_text(args, full):
     out = []
     for a in args:
         if a[0] == "pos":
-            out.append(R(a[1], 0, full))
+            out.append(P(a[1], 1, full))
         elif a[0] == "named":
-            out.append(a[1] + " = " + R(a[2], 0, full))
+            out.append(a[1] + " = " + P(a[2], 1, full))
         else:
             out.append("..." + P(a[1], 8, full))
     return ", ".join(out)
